@@ -85,7 +85,7 @@ def build_and_audit(corr, thorough=False):
     if not res["built"]:
         res["problems"].append({"kind": "lean-build-failed", "module": corr.LEAN_MODULE,
                                 "log": (p.stdout + p.stderr)[-4000:]})
-    pd_ = lake(["build", "SkVerif.Drv.All"])
+    pd_ = lake(["build", "SkVerif.Drv.%s" % corr.PROP, "SkVerif.Drv.Loop"])
     res["driver_built"] = pd_.returncode == 0
     if not res["driver_built"]:
         res["problems"].append({"kind": "driver-build-failed", "log": (pd_.stdout + pd_.stderr)[-4000:]})
@@ -135,11 +135,11 @@ def build_and_audit(corr, thorough=False):
     return res
 
 
-def run_driver(lines):
-    """Feed lines to the Lean driver; returns list of output lines or None."""
+def run_driver(prop, lines):
+    """Feed lines to the property's Lean driver; returns list of output lines or None."""
     if not lines:
         return []
-    p = subprocess.run(["lake", "env", "lean", "--run", "Driver.lean"], cwd=LEAN,
+    p = subprocess.run(["lake", "env", "lean", "--run", "drivers/%s.lean" % prop], cwd=LEAN,
                        input="\n".join(lines) + "\n", capture_output=True, text=True, timeout=3000)
     if p.returncode != 0:
         log("driver failed:", p.stderr[-2000:])
@@ -155,11 +155,13 @@ def run_driver(lines):
 
 # ----------------------------------------------------------------------------- findings
 def load_known(prop):
-    p = os.path.join(VERIF, "known_findings.json")
+    """known_findings/<prop>.json: {"findings": [{"key", "what", ...}], "fixed": [...]}.
+    Only `findings` suppress anything; `fixed` entries suppress nothing.  Never written here."""
+    p = os.path.join(VERIF, "known_findings", prop + ".json")
     if not os.path.exists(p):
         return {}
     d = json.load(open(p))
-    return {f["key"]: f for f in d.get("findings", []) if f.get("property") == prop}
+    return {f["key"]: f for f in d.get("findings", [])}
 
 
 def case_hash(obj):
@@ -245,7 +247,7 @@ def main():
     models = None
     if lean["driver_built"]:
         idx = [i for i, l in enumerate(lines) if l is not None]
-        outs = run_driver([lines[i] for i in idx])
+        outs = run_driver(prop, [lines[i] for i in idx])
         if outs is not None:
             models = [None] * len(cases)
             for i, o in zip(idx, outs):
@@ -285,7 +287,7 @@ def main():
     for key, (i, msg) in sorted(seen_known.items()):
         log("KNOWN-FINDING: property=%s %s [%s] e.g. %s" % (prop, known[key]["what"], key, lines[i] or json.dumps(cases[i], default=str)[:200]))
 
-    for key, (i, msg) in sorted(new_by_key.items()):
+    for key, (i, msg) in sorted(new_by_key.items())[:3]:
         case = cases[i]
         # shrink
         if hasattr(corr, "shrink"):
@@ -293,7 +295,7 @@ def main():
         real = corr.run_real(case)
         payload = {"property": prop, "kind": "failing-input", "key": key, "message": msg, "case": case,
                    "line": corr.to_line(case), "real": real,
-                   "model": (run_driver([corr.to_line(case)]) or [None])[0] if lean["driver_built"] and corr.to_line(case) else None,
+                   "model": (run_driver(prop, [corr.to_line(case)]) or [None])[0] if lean["driver_built"] and corr.to_line(case) else None,
                    "rerun": "./check %s --replay <this file>" % prop}
         path = write_replay(prop, payload)
         log("VIOLATION property=%s replay=%s" % (prop, path))
